@@ -70,7 +70,9 @@ impl QueuingMetricSinkBuilder {
 
         spawn_worker_in_thread(worker.clone());
 
-        let stopper = Arc::new(StopOnDrop { worker: worker.clone() });
+        let stopper = Arc::new(StopOnDrop {
+            signal: worker.signal.clone(),
+        });
 
         QueuingMetricSink { worker, sink, stopper }
     }
@@ -287,8 +289,13 @@ impl MetricSink for QueuingMetricSink {
 
 /// Guard shared by every clone of a `QueuingMetricSink` that stops the
 /// worker when the last clone is destroyed.
+///
+/// The guard only holds the stop signal, not the worker: the thread running
+/// the worker must be the last owner of the worker (and with it, of the wrapped
+/// sink) so that the wrapped sink is never destroyed by the thread dropping
+/// the `QueuingMetricSink`.
 struct StopOnDrop {
-    worker: Arc<Worker>,
+    signal: Arc<StopSignal>,
 }
 
 impl Drop for StopOnDrop {
@@ -297,7 +304,31 @@ impl Drop for StopOnDrop {
     /// Note that this destructor only sends the worker thread a signal to
     /// stop, it doesn't wait for it to stop.
     fn drop(&mut self) {
-        self.worker.stop();
+        self.signal.stop();
+    }
+}
+
+/// Request to stop: a flag that stays set plus a one slot channel used only
+/// to wake the run loop up. Unlike a marker put in the entry channel, this
+/// can't be lost when a bounded entry channel is full.
+struct StopSignal {
+    stopping: AtomicBool,
+    wake_sender: Sender<()>,
+}
+
+impl StopSignal {
+    fn stop(&self) {
+        // Record the request to stop and wake up the run loop if it is waiting
+        // for entries. The wake up channel holds a single message: if it is
+        // already full the run loop will be woken up anyway.
+        #[cfg(cadence_verif)]
+        crate::verif::point("queuing.stop.enter");
+        self.stopping.store(true, Ordering::Release);
+        #[cfg(cadence_verif)]
+        crate::verif::point("queuing.stop.flagged");
+        let _ = self.wake_sender.try_send(());
+        #[cfg(cadence_verif)]
+        crate::verif::point("queuing.stop.signalled");
     }
 }
 
@@ -432,11 +463,7 @@ struct Worker {
     task: Box<dyn Fn(String) + Sync + Send + RefUnwindSafe + 'static>,
     sender: Sender<Option<String>>,
     receiver: Receiver<Option<String>>,
-    // Request to stop: a flag that stays set plus a one slot channel used only
-    // to wake the run loop up. Unlike a marker put in the entry channel, this
-    // can't be lost when a bounded entry channel is full.
-    stopping: AtomicBool,
-    wake_sender: Sender<()>,
+    signal: Arc<StopSignal>,
     wake_receiver: Receiver<()>,
     stopped: AtomicBool,
     stats: WorkerStats,
@@ -453,8 +480,10 @@ impl Worker {
             task: Box::new(task),
             sender: tx,
             receiver: rx,
-            stopping: AtomicBool::new(false),
-            wake_sender: wake_tx,
+            signal: Arc::new(StopSignal {
+                stopping: AtomicBool::new(false),
+                wake_sender: wake_tx,
+            }),
             wake_receiver: wake_rx,
             stopped: AtomicBool::new(false),
             stats: WorkerStats::new(),
@@ -482,7 +511,7 @@ impl Worker {
 
     fn run(&self) {
         loop {
-            let opt = if self.stopping.load(Ordering::Acquire) {
+            let opt = if self.signal.stopping.load(Ordering::Acquire) {
                 // We've been asked to stop: process whatever is still queued
                 // without blocking and finish once there is nothing left.
                 match self.receiver.try_recv() {
@@ -517,18 +546,9 @@ impl Worker {
         self.stopped.store(true, Ordering::Release);
     }
 
+    #[cfg(test)]
     fn stop(&self) {
-        // Record the request to stop and wake up the run loop if it is waiting
-        // for entries. The wake up channel holds a single message: if it is
-        // already full the run loop will be woken up anyway.
-        #[cfg(cadence_verif)]
-        crate::verif::point("queuing.stop.enter");
-        self.stopping.store(true, Ordering::Release);
-        #[cfg(cadence_verif)]
-        crate::verif::point("queuing.stop.flagged");
-        let _ = self.wake_sender.try_send(());
-        #[cfg(cadence_verif)]
-        crate::verif::point("queuing.stop.signalled");
+        self.signal.stop();
     }
 
     // Stop reading events from the channel and wait for the "stopped" flag
